@@ -85,6 +85,21 @@ def _locktime(c, prog):
     c.sample({"rule": "R1", "table": {"%s,%s" % (names.get(p[0], p[0]), names.get(p[1], p[1])) if p else "?": sorted(map(str, l)) for p, l in table.items()}})
     # fallback term
     fb = [show(prov.operand(t["args"][1])) for bi, t in b.calls() if marks.get(bi) == "fallback"]
+    # "the maximum of the kind ..." is std::cmp::max over locktime::Height / locktime::Time: their order is the numeric order of
+    # the wrapped u32 (derived on a single-field struct, or a hand-written cmp of self.0 with other.0 in that orientation)
+    for ty in ("locktime::Height", "locktime::Time"):
+        for imp in prog.impls:
+            tr = (imp.get("trait") or "").split("<")[0]
+            if imp["self_ty"] != ty or tr not in ("std::cmp::Ord", "std::cmp::PartialOrd"):
+                continue
+            mac = (imp.get("sp") or {}).get("mac") or ""
+            ok, det = "derive" in mac, mac
+            if not ok:
+                terms = [show(Prov(prog.fns[it].body).local(0), -20) for it in imp.get("items", []) if it in prog.fns and it.endswith(("::cmp", "::partial_cmp"))]
+                det = "hand-written: %s" % terms
+                ok = bool(terms) and all(re.match(r"^(std::option::Option::Some\{)?(<u32 as std::cmp::(Partial)?Ord>::(partial_)?cmp|std::cmp::(Partial)?Ord::(partial_)?cmp|<%s as std::cmp::Ord>::cmp)\(arg1(\.0)?, arg2(\.0)?\)\}?$" % re.escape(ty), t) for t in terms)
+            c.inst("R1.locktime-order", "%s: %s is the numeric order" % (ty, tr.split("::")[-1]), ok, det, f.where(), ty)
+    c.floor("R1.locktime-order", 4)
     c.inst("R1.fallback-default", "no fallback => LockTime::ZERO", fb == ["locktime::LockTime::ZERO"], "default %s" % fb, f.where(), fnp)
 
 
@@ -523,6 +538,17 @@ def _accessors(c, prog):
         f = prog.fn(fnp)
         t = show(Prov(f.body).local(0), -30)
         c.inst("R5.pset-accessors", fnp[len(P):], t == want, "returns %s" % t[:200], f.where(), fnp)
+    # Input::from_prevout (what from_txin starts from): txid and index exactly as given, everything else default
+    fp = prog.fn(P + "map::input::Input::from_prevout")
+    tp = Prov(fp.body).local(0)
+    comp = {}
+    if tp[0] == "agg" and tp[1] == "pset::map::input::Input::Input":
+        comp = {k: re.sub(r"@[\w]*#\d+", "", show(v, -20)) for k, v in zip(tp[2], tp[3])}
+    DEF = "<pset::map::input::Input as std::default::Default>::default()"
+    odd = {k: v for k, v in comp.items() if k not in ("previous_txid", "previous_output_index") and v != "%s.%s" % (DEF, k)}
+    c.inst("R5.pset-accessors", "map::input::Input::from_prevout: (txid, index) as given, rest default",
+           comp.get("previous_txid") == "arg1.txid" and comp.get("previous_output_index") == "arg1.vout" and not odd,
+           "previous_txid %s, previous_output_index %s, non-default others %s" % (comp.get("previous_txid"), comp.get("previous_output_index"), odd), fp.where(), fp.path)
     MARK = "pset::map::output::Output::is_marked_for_blinding(arg1)"
     FIELDS = ["amount_comm", "asset_comm", "value_rangeproof", "asset_surjection_proof", "ecdh_pubkey"]
     for fnp, comb in ((P + "map::output::Output::is_partially_blinded", any), (P + "map::output::Output::is_fully_blinded", all)):
